@@ -232,8 +232,7 @@ def bupScan (bk : BucketT) (p : List Byte) (i ws v base : Nat) :
   | [], o, k => (o, k)
   | s :: rest, o, k =>
     let e := bk.buckets.getD (base + s) (0, 0)
-    if v ≠ e.2 then
-      if e.2 = 0 ∧ e.1 = 0 then (o, k) else bupScan bk p i ws v base rest o k
+    if v ≠ e.2 then bupScan bk p i ws v base rest o k
     else
       let j := e.1
       if ¬ (j < i ∧ i - j ≤ ws) then bupScan bk p i ws v base rest o k
